@@ -102,9 +102,9 @@ let () =
       Printf.printf "IO %s %s\n" id (b01 (int_open k (zh c) (zh m) (zh r)))
     | ["IE"; id; n; s; t; ord; l; m; r; m2; r2] ->
       let k = { ik_n = zh n; ik_s = zh s; ik_t = zh t } in
-      let ok = int_equivocate_ok k (zh ord) (zh l) (zh m) (zh r) (zh m2) (zh r2) in
+      let ok = int_equivocate_ok (zh ord) (zh l) (zh m) (zh r) (zh m2) (zh r2) in
       let o = int_open k (int_commit k (zh m) (zh r)) (zh m2) (zh r2) in
-      Printf.printf "IE %s %s %s\n" id (b01 ok) (b01 o)
+      Printf.printf "IE %s %s %s %s\n" id (b01 ok) (b01 o) (b01 (int_witness_in_range k (zh r2)))
     | ["E"; id; q; x; ops] ->
       let q = zh q and x = zh x in
       let regs = hrun (eg_scheme q x) (parse_hops ops) in
